@@ -10,7 +10,9 @@ use serde_json::{json, Value};
 use std::collections::{BTreeMap, BTreeSet};
 use std::path::Path;
 
-pub const PROBE_KEYLENS: &[usize] = &[1, 2, 4, 7, 8, 16, 33, 71, 100, 400, 1000];
+// 7 and 71: the 64/128-byte record header divides the block; 3, 5, 6, 48, 65, 138, 284, 576: (BLOCK - 8) mod (key + 8) < 8,
+// i.e. an inner node with one more child would still fit without the extra pointer (capacity arithmetic classes)
+pub const PROBE_KEYLENS: &[usize] = &[1, 2, 3, 4, 5, 6, 7, 8, 16, 33, 48, 65, 71, 100, 138, 284, 400, 576, 1000];
 const BLOCK: usize = 4096;
 
 pub fn per_block(keylen: usize) -> usize {
@@ -336,7 +338,7 @@ pub fn run_idx(c: &IdxCase, dir: &Path) -> Result<CaseOut, Failure> {
             }
         };
     }
-    go!(1, 2, 4, 7, 8, 16, 33, 71, 100, 400, 1000)
+    go!(1, 2, 3, 4, 5, 6, 7, 8, 16, 33, 48, 65, 71, 100, 138, 284, 400, 576, 1000)
 }
 
 fn sample(c: &IdxCase) -> Value {
@@ -465,7 +467,7 @@ pub fn run(ctx: &RunCtx) -> PropResult {
     PropResult {
         report,
         level: "exploration",
-        rule: "Header multisets pushed through the IndexProbe hook into the crate-private index: key length from {1,2,4,7,8,16,33,71,100,400,1000} (fan-out 454..5; 7 and 71 make the serialized header divide the 4 KiB block), key counts drawn around 1, one block, fan-out and fan-out^2 blocks (up to 3000 keys / 6000 headers), up to 4 keys with version runs of 2, 3, block-1, block, block+1, 2 blocks, 2 blocks+1 or 1..300, timestamps from 1-4 values (heavy ties), 0/15/50 % deletion markers, shuffled push order. Oracle: get_latest, get_all, get_all_with_deletion_marker and count in four stages (in memory, dumped to file, loaded back, opened from file) against a sorted-list model (timestamp desc, later push first, cut after first marker) for present keys, the absent key below each of them, below the minimum and above the maximum. A hook-free phase (storage-tree) drives 20-250 distinct keys of 100 / 400 bytes (fan-out 38 / 11, i.e. two node levels) with version runs through Storage (write, switch, wait for the dump, restart with index kept or removed) and compares every query for every key with the reference model. A second, enumerated phase sweeps key counts around every power of the fan-out and runs around block boundaries per key length. Non-trivial = >=2 node levels above the leaves, or a version run longer than a block, or a last leaf shorter than a block. distinct = FNV hash of the serialized case.".into(),
+        rule: "Header multisets pushed through the IndexProbe hook into the crate-private index: key length from {1,2,3,4,5,6,7,8,16,33,48,65,71,100,138,284,400,576,1000} (fan-out 454..5; 7 and 71 make the serialized header divide the 4 KiB block; 3,5,6,48,65,138,284,576 are the lengths where an inner node with one more child would still fit if the extra pointer were forgotten), key counts drawn around 1, one block, fan-out and fan-out^2 blocks (up to 3000 keys / 6000 headers), up to 4 keys with version runs of 2, 3, block-1, block, block+1, 2 blocks, 2 blocks+1 or 1..300, timestamps from 1-4 values (heavy ties), 0/15/50 % deletion markers, shuffled push order. Oracle: get_latest, get_all, get_all_with_deletion_marker and count in four stages (in memory, dumped to file, loaded back, opened from file) against a sorted-list model (timestamp desc, later push first, cut after first marker) for present keys, the absent key below each of them, below the minimum and above the maximum. A hook-free phase (storage-tree) drives 20-250 distinct keys of 100 / 400 bytes (fan-out 38 / 11, i.e. two node levels) with version runs through Storage (write, switch, wait for the dump, restart with index kept or removed) and compares every query for every key with the reference model. A second, enumerated phase sweeps key counts around every power of the fan-out and runs around block boundaries per key length. Non-trivial = >=2 node levels above the leaves, or a version run longer than a block, or a last leaf shorter than a block. distinct = FNV hash of the serialized case.".into(),
         assumptions: {
             let mut a = common_assumptions();
             a.push("IndexProbe (src/verif.rs) builds headers from a bincode mirror of record::Header and calls Index::push/dump/load/get_* unchanged".into());
